@@ -182,6 +182,16 @@ inductive Res (α : Type) where
   | ok (v : α) (k : K)
   | err (e : Errno)
 
+/-- state after a successful `open`: a fresh open file description at offset 0, bound to `fd` -/
+def installFd (k : K) (tree : Tree) (fd : Nat) (p : Path) (acc : Access) (f : Flags) : K :=
+  { k with
+    tree := tree
+    ofds := k.ofds ++ [{ path := p, rd := acc.readable, wr := acc.writable, app := f.append, off := 0 }]
+    fds := setFd k.fds fd (some { ofd := k.ofds.length, cloexec := f.cloexec }) }
+
+/-- mode of a created file: the nine permission bits requested, minus the file creation mask -/
+def createMode (mode umask : Nat) : Nat := (mode % 512) &&& (511 - umask % 512)
+
 /-- `open(path, access | flags, mode)`.  Linux reserves the descriptor first, so EMFILE has priority
     over every path error and nothing is created or truncated when the table is full. -/
 def open' (k : K) (comps : List String) (acc : Access) (f : Flags) (mode : Nat) : Res Nat :=
@@ -191,21 +201,17 @@ def open' (k : K) (comps : List String) (acc : Access) (f : Flags) (mode : Nat) 
     match resolve k.tree k.cwd comps with
     | .error e => .err e
     | .ok p =>
-      let entry : FdEntry := { ofd := k.ofds.length, cloexec := f.cloexec }
-      let ofd : Ofd := { path := p, rd := acc.readable, wr := acc.writable, app := f.append, off := 0 }
-      let done (tree : Tree) : Res Nat :=
-        .ok fd { k with tree := tree, ofds := k.ofds ++ [ofd], fds := setFd k.fds fd (some entry) }
       match openOutcome (existing k.tree p) acc.writable f with
       | .eexist => .err .EEXIST
       | .eisdir => .err .EISDIR
       | .enotdir => .err .ENOTDIR
       | .enoent => .err .ENOENT
-      | .create => done (insert k.tree p (.reg ((mode % 512) &&& (511 - k.umask % 512)) []))
-      | .openKeep => done k.tree
+      | .create => .ok fd (installFd k (insert k.tree p (.reg (createMode mode k.umask) [])) fd p acc f)
+      | .openKeep => .ok fd (installFd k k.tree fd p acc f)
       | .openTrunc =>
         match lookup k.tree p with
-        | some (.reg m _) => done (insert k.tree p (.reg m []))
-        | _ => done k.tree
+        | some (.reg m _) => .ok fd (installFd k (insert k.tree p (.reg m [])) fd p acc f)
+        | _ => .ok fd (installFd k k.tree fd p acc f)
 
 /-! ## read / write / lseek -/
 
